@@ -32,7 +32,7 @@ META = {
         'quick': 'smart sorter: 0..2 regions with all four corners of every box symbolic (x_min <= x_max, y_min <= y_max, in [0, 1000]); 3 regions with '
                  'one axis symbolic and the other taken from 4 concrete arrangements (staggered, identical, nested, zero extent; 6 in the thorough tier); '
                  'intersection parameter symbolic in (0,1); naive sorter: 0..3 regions, image width and width denominator symbolic integers',
-        'thorough': 'smart sorter: 3 regions fully symbolic; 4 regions with three concrete boxes and one symbolic box; a concave 5-point variant; naive sorter: 4 regions',
+        'thorough': 'smart sorter: 3 regions with one axis symbolic and the other from all 6 arrangements; 4 regions with three concrete boxes and one symbolic box; a concave 5-point variant; naive sorter: 4 regions',
     },
     'assumptions': [
         'numpy scalar division: x / 0 is +-inf or nan with a warning, never an exception (Python floats would raise: tracked per value)',
@@ -56,7 +56,7 @@ def tasks(tier):
     for n in range(0, 3):
         ts.append({'mode': 'smart', 'n': n})
     # three (four) regions: one axis symbolic, the other from a set of concrete arrangements (stacked, staggered, identical,
-    # nested, zero height, touching); the fully symbolic 3-region space is the thorough tier
+    # nested, zero height, touching); the fully symbolic 3-region space is not scheduled (see tasks)
     for yp in (YP if tier != 'quick' else YP[1:5]):
         ts.append({'mode': 'smart', 'n': 3, 'ypat': yp, 'split': 32})
         ts.append({'mode': 'smart', 'n': 3, 'xpat': yp, 'split': 32})
@@ -69,7 +69,7 @@ def tasks(tier):
             t['split'] = 32
         ts.append(t)
     if tier != 'quick':
-        ts.append({'mode': 'smart', 'n': 3, 'split': 512})
+        # three regions with BOTH axes symbolic (~10^5 paths, 640 sub-tasks of minutes each: ~100 min on 16 cores) is not scheduled
         ts.append({'mode': 'smart', 'n': 2, 'concave': True})
         ts.append({'mode': 'naive', 'n': 4, 'split': 128})
         for yp in YP[:3]:
